@@ -560,7 +560,6 @@ func (s *SegmentBase) visitStoredFields(vdc *visitDocumentCtx, num uint64,
 
 		keepGoing := visitor("_id", byte('t'), idFieldVal, nil)
 		if !keepGoing {
-			visitDocumentCtxPool.Put(vdc)
 			return nil
 		}
 
